@@ -114,12 +114,13 @@ def _same_sig(machine_cls, cfg, ops, signature, known_without):
     return viol is not None and viol.signature == signature
 
 
-def shrink(machine_cls, cfg, ops, signature, known, budget_s=120.0):
+def shrink(machine_cls, cfg, ops, signature, known, budget_s=120.0, test=None):
     """ddmin over the operation list, then argument simplification, while the
     same violation signature persists."""
     t_end = time.monotonic() + budget_s
     known = [k for k in known if k != signature]
-    test = lambda o: _same_sig(machine_cls, cfg, o, signature, known)
+    if test is None:
+        test = lambda o: _same_sig(machine_cls, cfg, o, signature, known)
     ops = list(ops)
     n = 2
     while len(ops) >= 2 and time.monotonic() < t_end:
@@ -170,14 +171,17 @@ def repo_head():
         return "unknown"
 
 
-def write_replay(prop, verif_seed, index, tier, cfg, ops, signature, detail):
+def write_replay(prop, verif_seed, index, tier, cfg, ops, signature, detail, hashseeds=None):
     d = os.path.join(OUT, "replays", prop)
     os.makedirs(d, exist_ok=True)
-    path = os.path.join(d, "%d-%d.json" % (verif_seed, index))
+    path = os.path.join(d, "%d-%d%s.json" % (verif_seed, index, "-x" if hashseeds else ""))
+    rec = {"property": prop, "seed": verif_seed, "run": index, "tier": tier,
+           "cfg": cfg, "ops": ops, "expected_signature": signature,
+           "detail": detail, "menpo_head": repo_head()}
+    if hashseeds:
+        rec["hashseeds"] = hashseeds
     with open(path, "w") as f:
-        json.dump({"property": prop, "seed": verif_seed, "run": index, "tier": tier,
-                   "cfg": cfg, "ops": ops, "expected_signature": signature,
-                   "detail": detail, "menpo_head": repo_head()}, f, indent=1)
+        json.dump(rec, f, indent=1)
     return path
 
 
@@ -185,8 +189,23 @@ def replay_file(path, verbose=True):
     with open(path) as f:
         r = json.load(f)
     machine_cls = load_machine(r["property"])
-    if hasattr(machine_cls, "replay"):
-        return machine_cls.replay(r, verbose)
+    if r.get("hashseeds"):
+        servers = [DigestServer(r["property"], h) for h in r["hashseeds"]]
+        try:
+            outs = [sv.run(r["cfg"], r["ops"]) for sv in servers]
+        finally:
+            for sv in servers:
+                sv.close()
+        if verbose:
+            for op in r["ops"]:
+                print("  op", json.dumps(op, sort_keys=True))
+            for h, o in zip(r["hashseeds"], outs):
+                print("  PYTHONHASHSEED=%s -> outcome digest %s violation %s" % (h, o[0], o[1]))
+        if any(o != outs[0] for o in outs[1:]):
+            print("REPRODUCED property=%s signature=%s" % (r["property"], r["expected_signature"]))
+            return 1
+        print("REPLAY: no difference between interpreters (expected %s)" % r["expected_signature"])
+        return 0
     viol, ctx = execute(machine_cls, r["cfg"], r["ops"], (), trace=True)
     if verbose:
         for op in r["ops"]:
@@ -213,22 +232,76 @@ def fresh_replay(prop, path):
     return p.returncode == 1 and "REPRODUCED" in p.stdout
 
 
-def fresh_digests(prop, tier, verif_seed, n, hashseed):
+CROSS_SIG = "cross_interpreter:outcome_differs_between_hash_seeds"
+
+
+class DigestServer(object):
+    """A fresh interpreter under a given PYTHONHASHSEED that executes histories on
+    request and answers with (outcome digest, violation signature)."""
+
+    def __init__(self, prop, hashseed):
+        env = dict(os.environ)
+        env["PYTHONHASHSEED"] = str(hashseed)
+        self.p = subprocess.Popen([sys.executable, os.path.join(VERIF, "vsim", "cli.py"), prop, "--serve"],
+                                  stdin=subprocess.PIPE, stdout=subprocess.PIPE, text=True, env=env)
+
+    def run(self, cfg, ops):
+        self.p.stdin.write(json.dumps({"cfg": cfg, "ops": ops}) + "\n")
+        self.p.stdin.flush()
+        while True:
+            line = self.p.stdout.readline()
+            if not line:
+                raise HarnessError("digest server died")
+            if line.startswith("ANSWER "):
+                a = json.loads(line[7:])
+                return a["digest"], a["viol"]
+
+    def close(self):
+        try:
+            self.p.stdin.close()
+            self.p.wait(timeout=20)
+        except Exception:
+            self.p.kill()
+
+
+def serve(prop):
+    machine_cls = load_machine(prop)
+    known = sorted(e["signature"] for e in load_known(prop) if e["status"] == "known")
+    for line in sys.stdin:
+        line = line.strip()
+        if not line:
+            continue
+        r = json.loads(line)
+        try:
+            viol, ctx = execute(machine_cls, r["cfg"], r["ops"], known)
+            ans = {"digest": ctx.outcome_digest(), "viol": None if viol is None else viol.signature}
+        except Exception as e:
+            ans = {"digest": "harness-exception %r" % (e,), "viol": None}
+        print("ANSWER " + json.dumps(ans), flush=True)
+    return 0
+
+
+def cross_differs(servers, cfg, ops):
+    outs = [sv.run(cfg, ops) for sv in servers]
+    return any(o != outs[0] for o in outs[1:])
+
+
+def fresh_digests(prop, tier, verif_seed, n, hashseed, shard=(0, 1)):
     env = dict(os.environ)
     env["PYTHONHASHSEED"] = str(hashseed)
     env["VERIF_SEED"] = str(verif_seed)
     p = subprocess.run([sys.executable, os.path.join(VERIF, "vsim", "cli.py"), prop,
-                        "--tier", tier, "--digests", str(n)], capture_output=True,
-                       text=True, env=env, timeout=900)
+                        "--tier", tier, "--digests", str(n), "--shard", "%d/%d" % shard], capture_output=True,
+                       text=True, env=env, timeout=3000)
     if p.returncode != 0:
         raise HarnessError("digest subprocess failed: %s" % p.stderr[-2000:])
     line = [l for l in p.stdout.splitlines() if l.startswith("DIGESTS ")][-1]
     return {int(k): tuple(v) for k, v in json.loads(line[8:]).items()}
 
 
-def compute_digests(machine_cls, tier, verif_seed, n, known):
+def compute_digests(machine_cls, tier, verif_seed, n, known, shard=(0, 1)):
     out = {}
-    for i in range(n):
+    for i in range(shard[0], n, shard[1]):
         cfg, ops = history(machine_cls, tier, verif_seed, i, n)
         _, ctx = execute(machine_cls, cfg, ops, known)
         out[i] = (ops_digest(cfg, ops), ctx.outcome_digest())
@@ -300,9 +373,12 @@ def run_check(prop, tier, verif_seed, workers=None, out=sys.stdout):
     # interpreter under another PYTHONHASHSEED
     determinism = {"runs": 0, "ok": True}
     if exit_code == 0 and n_dig and not os.environ.get("VERIF_NO_SELFTEST"):
-        have = {i: d for i, d in digests.items() if i < n_dig}
-        again = compute_digests(machine_cls, tier, verif_seed, n_dig, known)
-        fresh = fresh_digests(prop, tier, verif_seed, n_dig, 12345)
+        n_self = min(n_dig, 32) if getattr(machine_cls, "CROSS_HASHSEEDS", None) else n_dig
+        have = {i: d for i, d in digests.items() if i < n_self}
+        again = compute_digests(machine_cls, tier, verif_seed, n_self, known)
+        # same interpreter hash seed for CROSS machines (other seeds are the property itself)
+        fresh = fresh_digests(prop, tier, verif_seed, n_self,
+                              0 if getattr(machine_cls, "CROSS_HASHSEEDS", None) else 12345)
         bad = [i for i in have if have[i] != again[i] or have[i] != fresh[i]]
         determinism = {"runs": len(have), "ok": not bad, "in_process_twice": True,
                        "fresh_interpreter_hashseed": 12345}
@@ -311,6 +387,33 @@ def run_check(prop, tier, verif_seed, workers=None, out=sys.stdout):
             i = bad[0]
             lines.append("HARNESS-ERROR property=%s nondeterministic run %d: worker=%s again=%s fresh=%s"
                          % (prop, i, have[i], again[i], fresh[i]))
+
+    # cross-interpreter phase (C15): the same histories under other hash seeds
+    cross = {}
+    cross_info = {"hashseeds": [], "histories_compared": 0}
+    if exit_code == 0 and getattr(machine_cls, "CROSS_HASHSEEDS", None):
+        from concurrent.futures import ThreadPoolExecutor
+        hss = list(budget["hashseeds"])
+        shards = max(1, workers // len(hss))
+        jobs2 = [(h, (sh, shards)) for h in hss for sh in range(shards)]
+        with ThreadPoolExecutor(max_workers=len(jobs2)) as tp:
+            res = list(tp.map(lambda j: (j[0], fresh_digests(prop, tier, verif_seed, n_dig, j[0], j[1])), jobs2))
+        compared = 0
+        for h, dg in res:
+            for i, (od, outd) in dg.items():
+                if i not in digests:
+                    continue
+                compared += 1
+                if od != digests[i][0]:
+                    exit_code = 2
+                    lines.append("HARNESS-ERROR property=%s operation list of run %d differs under PYTHONHASHSEED=%s" % (prop, i, h))
+                    break
+                if outd != digests[i][1] and i not in cross:
+                    cross[i] = h
+        cross_info = {"hashseeds": [0] + hss, "histories_compared": compared,
+                      "histories_differing": len(cross)}
+        for i in sorted(cross)[:1]:
+            viols.append((i, CROSS_SIG, "outcome log differs between PYTHONHASHSEED=0 and PYTHONHASHSEED=%s" % cross[i]))
 
     # violations: lowest run index per signature, minimised, replayed fresh
     reported = []
@@ -324,6 +427,27 @@ def run_check(prop, tier, verif_seed, workers=None, out=sys.stdout):
             else:
                 cfg, ops = next(itertools.islice(machine_cls.exhaustive(tier),
                                                  i - n_random, None))
+            hs = None
+            if sig == CROSS_SIG:
+                hs = [0, cross[i]]
+                servers = [DigestServer(prop, h) for h in hs]
+                try:
+                    small = shrink(machine_cls, cfg, ops, sig, known,
+                                   test=lambda o: cross_differs(servers, cfg, o))
+                finally:
+                    for sv in servers:
+                        sv.close()
+                path = write_replay(prop, verif_seed, i, tier, cfg, small, sig, detail, hashseeds=hs)
+                if fresh_replay(prop, path):
+                    reported.append((sig, path, len(ops), len(small)))
+                    lines.append("VIOLATION property=%s replay=%s" % (prop, path))
+                    lines.append("  signature=%s run=%d ops=%d->%d detail=%s" % (sig, i, len(ops), len(small), detail[:300]))
+                    exit_code = 1
+                else:
+                    lines.append("HARNESS-ERROR property=%s replay of %s did not reproduce %s" % (prop, path, sig))
+                    if exit_code == 0:
+                        exit_code = 2
+                continue
             small = shrink(machine_cls, cfg, ops, sig, known)
             try:
                 v2, _ = execute(machine_cls, cfg, small, [k for k in known if k != sig])
@@ -383,6 +507,7 @@ def run_check(prop, tier, verif_seed, workers=None, out=sys.stdout):
             "abstract_state_measure": machine_cls.STATE_MEASURE,
             "worst_observed_errors": {k: total.maxerr[k] for k in sorted(total.maxerr)},
             "determinism_selftest": determinism,
+            "cross_interpreter": cross_info,
             "known_finding_hits": dict(sorted(total.known_hits.items())),
             "real_components": machine_cls.REAL,
             "stub_components": machine_cls.STUB,
